@@ -17,7 +17,7 @@ import (
 func init() {
 	register(&Prop{ID: "C13", N: 40000, Quick: 1200,
 		Assume: []string{"the reference for a call is the same call on a value compiled freshly for that call (no external oracle)", "the history of a value is driven in one goroutine (concurrent histories belong to C06)"},
-		Rule:   "case = one pattern G(D,i) under the default configuration and under two small-cache configurations (MaxDFAStates 2 and 16); a long-lived Regex and a long-lived meta.Engine receive a history of 36 index-chosen calls (Match, FindIndex, FindSubmatchIndex, FindAllIndex, Count, ReplaceAll, FindAllSubmatchIndex, Engine.FindIndices/IsMatch/Count/FindSubmatch) over the case's haystacks, haystacks of neighbouring cases, cache-churning random walks a 70,000-byte haystack for every 50th case, and for every 8th case a burst of 65,600 cheap calls in the middle of the history (wraps the 16-bit generation counter of the pooled backtracker state while marks of earlier, longer searches are still in the table), with runtime.GC() in between; after EVERY call the result is compared with the same call on a fresh value, and every 6th call is repeated; one evaluation = one compared call; distinct_nontrivial = distinct (pattern, config, history position) triples where the fresh value reports a match",
+		Rule:   "case = one pattern G(D,i) under the default configuration and under two small-cache configurations (MaxDFAStates 2 and 16); a long-lived Regex and a long-lived meta.Engine receive a history of 36 index-chosen calls (Match, FindIndex, FindSubmatchIndex, FindAllIndex, Count, ReplaceAll, FindAllSubmatchIndex, Engine.FindIndices/IsMatch/Count/FindSubmatch) over the case's haystacks, haystacks of neighbouring cases, cache-churning random walks a 70,000-byte haystack for every 50th case, and for every 8th case an epoch wrap in the middle of the history: cheap calls until the 16-bit generation of the parked backtracker state (read through the verif hook) is back at its value after step 0, then steps 1-16 are replayed under the same generation numbers as their first execution, with runtime.GC() in between; after EVERY call the result is compared with the same call on a fresh value, and every 6th call is repeated; one evaluation = one compared call; distinct_nontrivial = distinct (pattern, config, history position) triples where the fresh value reports a match",
 		Triage: func(f *Failure) string { return "" },
 		Run:    runC13})
 }
@@ -93,7 +93,9 @@ func runC13(w *W, i uint64) {
 			{"FindSubmatchIndex", func(re *coregex.Regex, e *meta.Engine, h []byte) string { return obs.Ints(re.FindSubmatchIndex(h)) }},
 			{"FindAllIndex", func(re *coregex.Regex, e *meta.Engine, h []byte) string { return obs.Ints2(re.FindAllIndex(h, -1)) }},
 			{"Count", func(re *coregex.Regex, e *meta.Engine, h []byte) string { return strconv.Itoa(re.Count(h, -1)) }},
-			{"ReplaceAll", func(re *coregex.Regex, e *meta.Engine, h []byte) string { return obs.Content(re.ReplaceAll(h, []byte("<$0>"))) }},
+			{"ReplaceAll", func(re *coregex.Regex, e *meta.Engine, h []byte) string {
+				return obs.Content(re.ReplaceAll(h, []byte("<$0>")))
+			}},
 			{"FindAllSubmatchIndex", func(re *coregex.Regex, e *meta.Engine, h []byte) string {
 				return obs.Ints2(re.FindAllSubmatchIndex(h, 3))
 			}},
@@ -115,49 +117,82 @@ func runC13(w *W, i uint64) {
 				return fmt.Sprint(a, b, ok)
 			}},
 		}
+		// the history is fixed up front so that a part of it can be replayed
+		type stepT struct {
+			cl callT
+			h  []byte
+		}
+		steps := make([]stepT, 36)
+		for k := range steps {
+			steps[k] = stepT{calls[r.IntN(len(calls))], pool[r.IntN(len(pool))]}
+		}
+		genAfter0, genStep := -1, 0
+		check := func(tag string, step int) {
+			cl, h := steps[step].cl, steps[step].h
+			got := obs.Call(func() string { return cl.f(V, E, h) })
+			fre, fe := compile()
+			want := obs.Call(func() string { return cl.f(fre, fe, h) })
+			evals++
+			if want != "nil" && want != "false" && want != "0" && want != "-1 -1 false" {
+				w.Nontrivial(c.Pattern, cf.name, tag+strconv.Itoa(step))
+			}
+			if got != want {
+				w.Fail(Failure{Idx: i, Sub: cf.name + "/" + tag + "step" + strconv.Itoa(step), API: cl.name, Got: got, Want: want, Pattern: c.Pattern, Haystack: strconv.Quote(string(h)), Strategy: E.Strategy().String(), Region: c.Region.String(), Family: c.Family, Note: "result after history differs from a fresh value"})
+			}
+			if step%6 == 5 {
+				again := obs.Call(func() string { return cl.f(V, E, h) })
+				evals++
+				if again != got {
+					w.Fail(Failure{Idx: i, Sub: cf.name + "/" + tag + "step" + strconv.Itoa(step), API: cl.name + "/repeat", Got: again, Want: got, Pattern: c.Pattern, Haystack: strconv.Quote(string(h)), Strategy: E.Strategy().String(), Region: c.Region.String(), Note: "repeating the call changed the result"})
+				}
+			}
+		}
 		for step := 0; step < 36; step++ {
-			cl := calls[r.IntN(len(calls))]
-			h := pool[r.IntN(len(pool))]
 			if step%9 == 8 {
 				runtime.GC()
 				w.Count("event:gc-in-history", 1)
 			}
 			if step == 17 && i%8 == 0 {
-				// 65 600 cheap calls between two parts of the history: wraps every 16-bit generation / epoch
-				// counter of the pooled state (backtracker visited table) while marks of earlier, longer
-				// searches are still in the tables
+				// Epoch wrap: cheap calls until the 16-bit generation of the parked backtracker state is back
+				// at the value it had after the first step that used it (read through the verif hook), then the steps from there to 16 are replayed:
+				// every replayed search runs under the same generation number as its first execution, while
+				// the marks of that first execution are still in the visited table unless a wrap cleared them.
 				short := pool[0]
 				for _, h := range pool {
 					if len(h) > 0 && (len(short) == 0 || len(h) < len(short)) {
 						short = h
 					}
 				}
-				obs.Call(func() string {
-					for k := 0; k < 65600; k++ {
-						V.Match(short)
-						if k%4 == 0 {
-							E.FindIndices(short)
+				reached := false
+				if genAfter0 > 0 {
+					obs.Call(func() string {
+						for k := 0; k < 140000; k++ {
+							if k%2 == 0 {
+								V.Match(short)
+							} else {
+								V.FindSubmatchIndex(short)
+							}
+							if sz, ok := V.VerifEngine().VerifStateSizes(); ok && sz.Generation == genAfter0 {
+								reached = true
+								break
+							}
 						}
+						return ""
+					})
+				}
+				if reached {
+					w.Count("event:generation-wrap-reached(replay of steps 1-16)", 1)
+					for k := genStep + 1; k <= 16; k++ {
+						check("wrap-replay-", k)
 					}
-					return ""
-				})
-				w.Count("event:generation-wrap-burst(65600 calls)", 1)
+				} else {
+					w.Count("event:generation-wrap-not-applicable(no backtracker state in use)", 1)
+				}
 			}
-			got := obs.Call(func() string { return cl.f(V, E, h) })
-			fre, fe := compile()
-			want := obs.Call(func() string { return cl.f(fre, fe, h) })
-			evals++
-			if want != "nil" && want != "false" && want != "0" && want != "-1 -1 false" {
-				w.Nontrivial(c.Pattern, cf.name, strconv.Itoa(step))
-			}
-			if got != want {
-				w.Fail(Failure{Idx: i, Sub: cf.name + "/step" + strconv.Itoa(step), API: cl.name, Got: got, Want: want, Pattern: c.Pattern, Haystack: strconv.Quote(string(h)), Strategy: E.Strategy().String(), Region: c.Region.String(), Family: c.Family, Note: "result after history differs from a fresh value"})
-			}
-			if step%6 == 5 {
-				again := obs.Call(func() string { return cl.f(V, E, h) })
-				evals++
-				if again != got {
-					w.Fail(Failure{Idx: i, Sub: cf.name + "/step" + strconv.Itoa(step), API: cl.name + "/repeat", Got: again, Want: got, Pattern: c.Pattern, Haystack: strconv.Quote(string(h)), Strategy: E.Strategy().String(), Region: c.Region.String(), Note: "repeating the call changed the result"})
+			check("", step)
+			if genAfter0 <= 0 && step < 12 {
+				if sz, ok := V.VerifEngine().VerifStateSizes(); ok && sz.Generation > 0 {
+					genAfter0, genStep = sz.Generation, step
 				}
 			}
 		}
